@@ -103,6 +103,10 @@ func opBlock(h *HState, a Event) Event {
 				}
 				buf.Reset()
 				buf.Write(bytes.Repeat([]byte{0xEE}, len(ser)))
+			case "msg+emptybytes": // an empty, non-nil byte slice is not a serialization
+				o.b = bchutil.NewBlockFromBlockAndBytes(msg, make([]byte, 0, 16))
+			case "msg+nilbytes":
+				o.b = bchutil.NewBlockFromBlockAndBytes(msg, nil)
 			case "msg+bytes":
 				o.b = bchutil.NewBlockFromBlockAndBytes(msg, append([]byte{}, ser...))
 			}
@@ -220,7 +224,7 @@ func opTxWrap(_ *HState, a Event) Event {
 
 func runC16(c *Ctx) {
 	r := c.Rng
-	ctors := []string{"msg", "bytes", "reader", "msg+bytes", "bytes+trailing", "buffer"}
+	ctors := []string{"msg", "bytes", "reader", "msg+bytes", "bytes+trailing", "buffer", "msg+emptybytes", "msg+nilbytes"}
 	// TLC-generated call sequences on blocks of 0..3 transactions, for every constructor
 	for ci, cs := range readCases(c.Cases) {
 		n := gInt(cs, "n")
